@@ -1996,6 +1996,27 @@ func (ss *ServerSession) initialize(ctx context.Context, params *InitializeParam
 	if params == nil {
 		return nil, fmt.Errorf("%w: \"params\" must be be provided", jsonrpc2.ErrInvalidParams)
 	}
+	// The version must be one the session's transport can serve (see
+	// [ProtocolVersionSupporter]): server/discover advertises only those, and
+	// the initialize handshake must not negotiate anything else.
+	ss.mu.Lock()
+	transportVersions := ss.supportedVersions
+	ss.mu.Unlock()
+	if transportVersions == nil {
+		transportVersions = supportedProtocolVersions
+	}
+	version := legacyVersionFor(negotiatedVersion(params.ProtocolVersion), transportVersions)
+	if version == "" {
+		data, _ := json.Marshal(UnsupportedProtocolVersionData{
+			Supported: transportVersions,
+			Requested: params.ProtocolVersion,
+		})
+		return nil, &jsonrpc.Error{
+			Code:    CodeUnsupportedProtocolVersion,
+			Message: "the transport does not support any protocol version that uses the initialize handshake",
+			Data:    data,
+		}
+	}
 	var wasInit bool
 	ss.updateState(func(state *ServerSessionState) {
 		wasInit = state.InitializeParams != nil
@@ -2012,7 +2033,7 @@ func (ss *ServerSession) initialize(ctx context.Context, params *InitializeParam
 	return &InitializeResult{
 		// TODO(rfindley): alter behavior when falling back to an older version:
 		// reject unsupported features.
-		ProtocolVersion: negotiatedVersion(params.ProtocolVersion),
+		ProtocolVersion: version,
 		Capabilities:    s.capabilities(),
 		Instructions:    s.opts.Instructions,
 		ServerInfo:      s.impl,
